@@ -246,6 +246,10 @@ def run(ctx):
     ctx.import_rule("C15", "R15.2", "R16.8", "--multi-timestamp expands each record with iter_timestamped_records: every expansion reads the ORIGINAL record")
     ctx.import_rule("C20", "R20.2", "R16.9", "-m csv / -w csvfile: the same records come out whatever the writer - the CSV writer starts a new header whenever the record type changes")
 
+    # ------------------------------------------------------------------ R16.10 (shared rule) records with keyword-named fields keep their falsy values
+    from .c05 import check_generated_value_tests as _cgv16
+    _cgv16(ctx, "R16.10")
+
 
 
 def _in_nested_loop(node, outer):
